@@ -4,7 +4,53 @@ import (
 	"flag"
 	"fmt"
 	"os"
+	"runtime"
+	"strconv"
+	"sync/atomic"
+	"time"
 )
+
+// progress: bumped by every script line; the watchdog reads it
+var progress atomic.Int64
+
+// watchdog: a call into the library that never returns, or that keeps allocating, must end the run with
+// the case written down (a hang or an unbounded allocation is a failing input), not eat the machine:
+// the process exits 3 when no script line was produced for VERIF_STALL_SECS (default 300, thorough 1800)
+// and 4 when the live heap passes VERIF_HEAP_LIMIT_MB (default 8192).
+func watchdog(thorough bool) {
+	stall := 300
+	if thorough {
+		stall = 1800
+	}
+	if v, err := strconv.Atoi(os.Getenv("VERIF_STALL_SECS")); err == nil && v > 0 {
+		stall = v
+	}
+	heapMB := 8192
+	if v, err := strconv.Atoi(os.Getenv("VERIF_HEAP_LIMIT_MB")); err == nil && v > 0 {
+		heapMB = v
+	}
+	die := func(code int, why string) {
+		if noted.kind != "" {
+			os.WriteFile(tmpPath("current-case.txt"), []byte(fmt.Sprintf("%s %s in=%x\n%s\n", noted.kind, noted.opts, noted.input, why)), 0o644)
+		}
+		fmt.Fprintln(os.Stderr, "watchdog:", why)
+		os.Exit(code)
+	}
+	last, lastAt := progress.Load(), time.Now()
+	var m runtime.MemStats
+	for {
+		time.Sleep(250 * time.Millisecond)
+		if p := progress.Load(); p != last {
+			last, lastAt = p, time.Now()
+		} else if time.Since(lastAt) > time.Duration(stall)*time.Second {
+			die(3, fmt.Sprintf("hang: no progress for %d s", stall))
+		}
+		runtime.ReadMemStats(&m)
+		if m.HeapAlloc > uint64(heapMB)<<20 {
+			die(4, fmt.Sprintf("unbounded allocation: live heap %d MiB", m.HeapAlloc>>20))
+		}
+	}
+}
 
 func main() {
 	fam := flag.String("fam", "", "family")
@@ -15,6 +61,7 @@ func main() {
 	flag.Parse()
 	g := newGen(*seed)
 	o := newOut(*out)
+	go watchdog(*thorough)
 	defer func() {
 		// a panic that escapes a family is a crash of the library on the case noted last: write the
 		// case down for the replay, then let the process die with the panic
